@@ -1,4 +1,5 @@
 import WtfModel.Model.Legacy
+import WtfModel.Model.LegacyEntry
 import WtfModel.Gen.SearchParams
 import Driver.Search
 
@@ -9,9 +10,19 @@ import Driver.Search
     pipe <q> <limit> <boosts> <pipelineOnly> <pipelineBoost>
     recover <q>
     cli <q> <limit flag>                          the `wtf search` step: engine, else recovery cut to the limit
+  Domain `legacy2` (same state; Model/LegacyScore.lean + Model/LegacyEntry.lean, nothing uninterpreted but the
+  `Tuning` parameters of the search domain):
+    mls <q> <boosts>                              the MODEL's calculateScore of every document
+    parts <word>                                  per document: the five summands of calculateWordScore and the category factor
+    swo|swf <q> <12 option tokens of `search`>    SearchWithOptions / SearchWithFuzzy
+    swn <q> <12 option tokens> <shared 0|1>       SearchWithNLP (shared: the database has a TF-IDF searcher)
+    pfz <q> <12 option tokens>                    performFuzzySearch (untruncated)
+    combine <exact> <fuzzy> <limit>               combineAndDeduplicateResults on given (position=score) lists
+    sug <q> <max>                                 GetSuggestions
+  `pipe` uses the model's calculateScore too; the `ls` line (real values) is still parsed and compared by `mls`.
 -/
 namespace Driver.Legacy
-open Wtf Wtf.Search Wtf.Legacy
+open Wtf Wtf.Search Wtf.Legacy Wtf.LegacyScore Wtf.LegacyEntry
 
 structure LS where
   d : Driver.Search.DS := {}
@@ -20,18 +31,103 @@ structure LS where
 def fmtList (l : List (Nat × Float)) : String :=
   l.foldl (fun acc (d, s) => acc ++ s!" {d} {fmtFloat s}") s!"res {l.length}"
 
+/-- finiteScore on IEEE doubles: +Inf becomes math.MaxFloat64 -/
+def finF (x : Float) : Float := if x.isInf && x > 0.0 then Float.ofBits 0x7FEFFFFFFFFFFFFF else x
+
+def fmtFloats (l : List Float) : String := ",".intercalate (l.map fmtFloat)
+
+/-- the 11 option tokens of the `search` op (after the query) -/
+def opts? (f : List String) : Option (Opts Float) :=
+  match f with
+  | [lim, bo, po, pb, uf, thr, un, cap, ap, pls, nc] =>
+    match intOf? lim, Driver.Search.pairList? bo Bytes.ofHex floatOf?, floatOf? pb, intOf? thr, intOf? cap, bytesList? pls with
+    | some lim, some bo, some pb, some thr, some cap, some pls =>
+      some { limit := lim, boosts := bo, pipelineOnly := boolOf po, pipelineBoost := pb, useFuzzy := boolOf uf,
+             fuzzyThreshold := thr, useNLP := boolOf un, topTermsCap := cap, allPlatforms := boolOf ap,
+             platforms := pls, noCross := boolOf nc }
+    | _, _, _, _, _, _ => none
+  | _ => none
+
+def fmtExcept (r : Except Fuzzy.Panic (List (Nat × Float))) : String :=
+  match r with
+  | .ok l => fmtList l
+  | .error _ => "panic:index-out-of-range"
+
+/-- the model's own TF-IDF ranking (what a searcher built from the commands returns) -/
+def modelRank (d : Driver.Search.DS) : Bytes → List (Nat × Float) :=
+  match d.tfIdx with
+  | some idx => fun q => Tfidf.search d.ri Float.sqrt 0.01 idx q d.db.size
+  | none => fun _ => []
+
+def step2 (st : LS) (l : String) : Option (LS × String) :=
+  match words l with
+  | ["mls", q, bo] =>
+    match Bytes.ofHex q, Driver.Search.pairList? bo Bytes.ofHex floatOf? with
+    | some q, some bo =>
+      let ws := queryWords st.d.ri q
+      some (st, "mls " ++ (if st.d.db.isEmpty then "-" else
+        fmtFloats (st.d.db.toList.map (fun c => calculateScore finF st.d.ri bo c ws))))
+    | _, _ => some (st, "bad-op")
+  | ["parts", w] =>
+    match Bytes.ofHex w with
+    | some w =>
+      let one (c : Cmd) : String := fmtFloats
+        [commandScore w c.commandLower, domainScore st.d.ri w c, keywordScore w c.keywordsLower,
+         descriptionScore w c.descriptionLower, tagScore w c.tagsLower, categoryBoost st.d.ri c [w]]
+      some (st, "parts " ++ (if st.d.db.isEmpty then "-" else ";".intercalate (st.d.db.toList.map one)))
+    | none => some (st, "bad-op")
+  | "swo" :: q :: rest =>
+    match Bytes.ofHex q, opts? rest with
+    | some q, some o => some (st, fmtList (searchWithOptions finF st.d.ri st.d.host st.d.db.toList q o.limit o.boosts))
+    | _, _ => some (st, "bad-op")
+  | "swf" :: q :: rest =>
+    match Bytes.ofHex q, opts? rest with
+    | some q, some o => some (st, fmtExcept (searchWithFuzzy finF (Driver.Search.tuning st.d) st.d.db.toList q o))
+    | _, _ => some (st, "bad-op")
+  | "pfz" :: q :: rest =>
+    match Bytes.ofHex q, opts? rest with
+    | some q, some o => some (st, fmtExcept (performFuzzy (Driver.Search.tuning st.d) st.d.db.toList q { o with limit := fuzzyLimit o.limit } (fuzzyLimit o.limit)))
+    | _, _ => some (st, "bad-op")
+  | ["swn", q, lim, bo, po, pb, uf, thr, un, cap, ap, pls, nc, shared] =>
+    match Bytes.ofHex q, opts? [lim, bo, po, pb, uf, thr, un, cap, ap, pls, nc] with
+    | some q, some o =>
+      let d := Driver.Search.ensureIdx st.d
+      let T0 := Driver.Search.tuning d
+      let T : Tuning Float := { T0 with tfidf := if boolOf shared then some (modelRank d) else none }
+      some ({ st with d := d }, fmtExcept (searchWithNLP finF T (modelRank d) d.db.toList q o))
+    | _, _ => some (st, "bad-op")
+  | ["combine", ex, fz, lim] =>
+    match Driver.Search.pairList? ex natOf? floatOf?, Driver.Search.pairList? fz natOf? floatOf?, natOf? lim with
+    | some ex, some fz, some lim => some (st, fmtList (combine st.d.db.toList ex fz lim))
+    | _, _, _ => some (st, "bad-op")
+  | ["sug", q, m] =>
+    match Bytes.ofHex q, intOf? m with
+    | some q, some m =>
+      match getSuggestions (Driver.Search.tuning st.d) st.d.db.toList q m with
+      | .ok ws => some (st, ws.foldl (fun acc w => acc ++ " " ++ Bytes.toHex w) s!"sug {ws.length}")
+      | .error _ => some (st, "panic:index-out-of-range")
+    | _, _ => some (st, "bad-op")
+  | ["words"] =>
+    let ws := suggestionWords st.d.ri st.d.db.toList
+    some (st, ws.foldl (fun acc w => acc ++ " " ++ Bytes.toHex w) s!"words {ws.length}")
+  | _ => none
+
 def step (st : LS) (l : String) : LS × String :=
+  match step2 st l with
+  | some r => r
+  | none =>
   match words l with
   | ["ls", v] =>
     match Driver.Search.floatList? v with
     | some fs => ({ st with ls := fs.toArray }, "ok")
     | none => (st, "bad-op")
-  | ["pipe", _q, lim, _bo, po, pb] =>
-    match intOf? lim, floatOf? pb with
-    | some lim, some pb =>
-      let o : Opts Float := { limit := lim, pipelineOnly := boolOf po, pipelineBoost := pb }
-      (st, fmtList (searchLegacyPipeline st.d.ri (fun i => st.ls.getD i 0.0) st.d.db.toList o))
-    | _, _ => (st, "bad-op")
+  | ["pipe", q, lim, bo, po, pb] =>
+    -- the scorer is the MODEL's calculateScore (the `ls` line above is parsed but no longer consulted)
+    match Bytes.ofHex q, intOf? lim, Driver.Search.pairList? bo Bytes.ofHex floatOf?, floatOf? pb with
+    | some q, some lim, some bo, some pb =>
+      let o : Opts Float := { limit := lim, boosts := bo, pipelineOnly := boolOf po, pipelineBoost := pb }
+      (st, fmtList (searchPipeline finF st.d.ri st.d.db.toList q o))
+    | _, _, _, _ => (st, "bad-op")
   | ["recover", q] =>
     match Bytes.ofHex q with
     | some q => (st, fmtList (recover (S := Float) st.d.ri st.d.db.toList q))
